@@ -113,6 +113,14 @@ func c14W1(b *core.B, r *core.Rng, nProg int) {
 			// make sure every third program evaluates a pattern nobody has compiled yet
 			text += "<%= cs ~= \"^zz" + salt + "\" %><%= truncate(cs) %><%= pathFor(pf" + fmt.Sprint(pi%8) + ") %><%= spare + ci + \"" + salt + "\" %>"
 		}
+		if pi%3 == 1 {
+			// paths that go on after a call and end in a method call (or in a member that is not there):
+			// what the evaluator works out about them while it runs, it must not write into the shared tree
+			text += "<%= tn.Self().Next.Label() %><%= tn.PSelf().Next.PLabel() %><%= for (i) in [1, 2] { %><%= tn.Self().Next.Add(i, 1) %><% } %><%= tn.Self().Next.Self().Name %>"
+			if pi%2 == 1 {
+				text += "<%= tn.Self().Next.Nope" + fmt.Sprint(pi) + "() %>"
+			}
+		}
 		if !b.Begin("W1 " + text) {
 			continue
 		}
